@@ -611,6 +611,8 @@ def stream_names(ctx, only=None):
     for c, r in zip(cases, res):
         st.record(c, nontrivial=cand(c['name'], c['ext'], 0) in c['files'])
         # property oracle, directly on the implementation
+        if skipped(r):
+            continue
         if not r['ok']:
             ctx.violation('C14/names/exception', 'get_new_file_name raised', c, 'a fresh name', r)
             continue
@@ -702,6 +704,12 @@ def run_chunks(ctx, script, cases, nproc, wrap=None, timeout=1500):
     return res
 
 
+def skipped(r):
+    """the runner gave up after repeated timeouts: this case was not evaluated (the timeouts themselves are reported)"""
+    m = (r.get('fatal') or r) if isinstance(r, dict) else {}
+    return str((m or {}).get('msg', '')).startswith('skipped after')
+
+
 def finish_stream(ctx, name, st):
     if st.disagreements:
         d = st.disagreements[0]
@@ -788,6 +796,8 @@ def stream_backup(ctx, n=None, with_model=True, only=None):
         present = c['target'] in c['files']
         st.record(c, nontrivial=present and bcand(c['target'], 1) in (set(c['files']) | set(c['dirs'])))
         how = 'create the listed files/directories in an empty directory and call biogeme.tools.files.create_backup(target, rename)'
+        if skipped(r):
+            continue
         if not r.get('ok'):
             ctx.violation('C14/backup/exception', 'create_backup raised', c, 'a backup copy', r, how)
             continue
@@ -923,7 +933,7 @@ def gen_history_case(rng, nops):
             decoys.add(bcand(t, j))
     pool = (['write_html'] * 3 + ['write_latex'] * 2 + ['write_f12'] * 2 + ['write_pickle'] * 3 + ['estimate'] * 3 +
             ['recycle'] * 2 + ['params_dump'] + ['dump_on_file'] * 2 + ['flat_panel'] * 2 + ['backup'] * 3 + ['validate'])
-    ops, constructed, validated = [], False, False
+    ops, constructed, validated, estimated = [], False, False, False
     for _ in range(nops):
         k = rng.choice(pool)
         if k in ('estimate', 'recycle', 'validate') and not constructed:
@@ -933,6 +943,10 @@ def gen_history_case(rng, nops):
             if validated:
                 continue
             validated = True
+            if not estimated:            # validate needs estimation results
+                ops.append({'op': 'estimate'})
+        if k in ('estimate', 'validate'):
+            estimated = True
         op = {'op': k}
         if k == 'write_html':
             op['only_robust'] = rng.random() < 0.5
@@ -968,6 +982,8 @@ def eval_history(ctx, st, case, r, items, imeta):
     """property oracle + expectations on one executed history; queues (fs, base, ext, observed) name checks"""
     how = ('in an empty directory create the decoy files, then run the operations in order '
            '(./check C14 --replay <this file>)')
+    if skipped(r):
+        return False
     if r.get('fatal'):
         ctx.violation('C14/history/fatal', 'the history could not be run', case, 'a completed history', r['fatal'], how)
         return False
@@ -1208,6 +1224,8 @@ def stream_toml(ctx, n=None, with_model=True, only=None):
     dflt_of = {(prm['name'], prm['section']): prm['default'][:2] for prm in params}
     for c, r in zip(cases, res):
         st.record(c, nontrivial=any(a['v'][:2] != dflt_of.get((a['name'], a['section'])) for a in c))
+        if skipped(r):
+            continue
         if not r.get('ok'):
             stage = {None: 'set_value', 'set': 'dump_file', 'dump': 'read_file', 'read': 'get_value'}.get(r.get('stage'), 'run')
             ctx.violation(f'C14/toml/{stage}-failed', f'an admissible parameter set could not be written / read back ({stage}): '
@@ -1348,6 +1366,8 @@ def stream_reports(ctx, n=None, with_model=True, only=None):
         sp = c['spec']
         names, values = sp['names'], [h2f(v) for v in sp['values']]
         st.record(c, nontrivial=any(len(nm) > 10 for nm in names) or any(v != 0 and not 1e-4 <= abs(v) < 1000 for v in values))
+        if skipped(r):
+            continue
         if not r.get('ok'):
             ctx.violation('C14/reports/exception', f'a report could not be generated: {r.get("exc")}: {r.get("msg")}', c, 'all reports', r, how)
             continue
@@ -1428,6 +1448,8 @@ def stream_pickle(ctx, n=None, only=None):
     how = 'make_results(spec).write_pickle(); bioResults(pickle_file=name): ./check C14 --replay <this file>'
     for c, r in zip(cases, res):
         st.record(c, nontrivial=c['spec'].get('hessian', True))
+        if skipped(r):
+            continue
         if not r.get('ok'):
             ctx.violation('C14/pickle/exception', f'results could not be saved / re-loaded: {r.get("exc")}: {r.get("msg")}', c,
                           'the same results', r, how)
